@@ -138,4 +138,63 @@ theorem handles_are_the_definitions_matches (h : Heap) (v : Val) (j : J) (hu : U
       (drain ({ view := J.view, toJ := id } : Ctx J) sb (.doc j) fuel freshIter).2 :=
   heap_drain_is_tree_drain h v j hu sa sb hsteps fuel
 
+/-! ### `Match.parent`: the objects behind a match and its ancestors -/
+
+/-- the chain of cells is the match followed by the chain of its `.parent` (an imaginary
+match forwards `.parent` to the match it shadows) -/
+theorem cells_unfold (n : MNode Val) :
+    n.cells = cellOf n :: (match n.parent with | none => [] | some p => p.cells) := by
+  induction n with
+  | root d => rfl
+  | child p nm d _ => rfl
+  | imag p ih => simp [MNode.cells, MNode.parent, ih]
+  | par r f _ _ => rfl
+
+/-- the handle at depth 0 of a result's group is the `Match` of that result -/
+theorem group_depth_zero (n : MNode Val) : groupHandle n.cells 0 = Handle.ofNode n := by
+  cases hp : n.parent with
+  | none => rw [cells_unfold n, hp]; simp [groupHandle, Handle.ofNode, hp]
+  | some p =>
+    rw [cells_unfold n, hp]
+    simp only []
+    rw [cells_unfold p]
+    simp [groupHandle, Handle.ofNode, hp, cellOf]
+
+/-- one step along `.parent` in a group is the `Match` of the parent -/
+theorem group_parent (n p : MNode Val) (hp : n.parent = some p) (d : Nat) :
+    groupHandle n.cells (d+1) = groupHandle p.cells d := by
+  rw [cells_unfold n, hp]
+  simp [groupHandle]
+
+/-- **replacing a container through `m.parent` redirects the writes through `m`**: after an
+operation through the handle at depth `d+1` that leaves it caching `c`, the handle at depth
+`d` writes into `c` (its name and its own cache are untouched) -/
+theorem write_through_parent_redirects (cs : List HCell) (d : Nat) (hd hp hp' : Handle)
+    (h0 : groupHandle cs d = some hd) (_h1 : groupHandle cs (d+1) = some hp) :
+    ∃ hd', groupHandle (groupStore cs (d+1) hp') d = some hd' ∧
+      hd'.parent = hp'.cache ∧ hd'.name = hd.name ∧ hd'.cache = hd.cache := by
+  simp only [groupHandle] at h0
+  split at h0
+  · rename_i c p hc hpc
+    simp only [Option.some.injEq] at h0
+    subst h0
+    have hlt : d + 1 < cs.length := (List.getElem?_eq_some_iff.mp hpc).1
+    refine ⟨{ parent := hp'.cache, name := c.name, cache := c.data, pathStr := c.pathStr }, ?_, rfl, rfl, rfl⟩
+    simp only [groupStore, hpc, groupHandle]
+    rw [List.getElem?_set_ne (by omega), hc, List.getElem?_set_self hlt]
+  · simp at h0
+
+/-- an operation through a handle leaves the other cells of its group alone -/
+theorem group_store_frame (cs : List HCell) (d k : Nat) (hd : Handle) (hk : k ≠ d) :
+    (groupStore cs d hd)[k]? = cs[k]? := by
+  simp only [groupStore]
+  split
+  · exact List.getElem?_set_ne (by omega)
+  · rfl
+
+/-- non-vacuity: `$.a[f].b` — the chain is `b`, the filter's bookkeeping match (named `a`,
+a cell of its own), the root; the plain match `$.a` is not on it -/
+example : ((MNode.child (.imag (.child (.root (.ref 0)) (.key "a") (.ref 1))) (.key "b") (.atom (.int 1))).cells.map (·.pathStr))
+    = ["$.a.b", "$.a", "$"] := by decide
+
 end Treepath.C14
